@@ -160,9 +160,15 @@ def bounded(tier, seed):
         lattices += [('Toric2DCode', (3, 3)), ('Planar2DCode', (3, 4)), ('RotatedPlanar2DCode', (4, 4))]
     noises = [((1 / 3, 1 / 3, 1 / 3), None, None), ((0.7, 0.1, 0.2), None, None), ((0.05, 0.05, 0.9), None, None), ((0.2, 0.1, 0.7), 'XZZX', None), ((0.2, 0.1, 0.7), 'XZZX', {'deformation_axis': 'x'}),
               ((0.20001, 0.1, 0.69999), 'XZZX', {'deformation_axis': 'x'}), ((0.8, 0.1, 0.1), 'XY', None)]
-    for cname, size in lattices:
+    budget = 150 if tier == 'quick' else 900
+    truncated = False
+    # small lattices first so that a time cut drops only the largest cosets
+    for cname, size in sorted(lattices, key=lambda cs: int(np.prod(cs[1]))):
         for direction, defo, nkw in noises:
             for p in ((0.1, 0.3) if tier == 'quick' else (0.05, 0.1, 0.2, 0.3)):
+                if time.time() - t0 > budget:
+                    truncated = True
+                    continue
                 why = native_optimal(cname, size, direction, defo, p, rnd, 6 if tier == 'quick' else 25, nkw)
                 ev += 1; nt.add((cname, size, direction, defo, p))
                 if len(samples) < 3 and defo:
@@ -173,7 +179,8 @@ def bounded(tier, seed):
             ('MatchingDecoder', 'RotatedPlanar2DCode', (5, 5)), ('UnionFindDecoder', 'Toric2DCode', (3, 3)), ('UnionFindDecoder', 'Toric2DCode', (5, 5) if tier != 'quick' else (4, 5)),
             ('MatchingDecoder', 'Planar2DCode', (5, 5) if tier != 'quick' else (4, 4))]
     for dname, cname, size in corr:
-        if time.time() - t0 > (170 if tier == 'quick' else 3000):
+        if time.time() - t0 > (170 if tier == 'quick' else 1800):
+            truncated = True
             break
         why, cnt = native_correctable(dname, cname, size)
         ev += cnt; nt.add((dname, cname, size))
@@ -184,6 +191,9 @@ def bounded(tier, seed):
     for dname, cname, sizes in (('SweepMatchDecoder', 'Toric3DCode', [(3, 3, 3)] + ([(4, 4, 4), (3, 4, 5)] if tier != 'quick' else [])),
                                 ('RotatedSweepMatchDecoder', 'RotatedPlanar3DCode', [(3, 3, 3)] + ([(4, 4, 4), (3, 4, 5)] if tier != 'quick' else []))):
         for size in sizes:
+            if time.time() - t0 > (400 if tier == 'quick' else 2400):
+                truncated = True
+                continue
             why, cnt = native_correctable(dname, cname, size, maxw=1)
             ev += cnt; nt.add((dname, cname, size))
             if why:
@@ -193,4 +203,4 @@ def bounded(tier, seed):
         if v['obligation'] not in seen:
             seen.add(v['obligation']); out.append(v)
     return dict(bound='optimality vs full coset: %d lattices (<= 16 qubits per sector) x 7 noise models (incl. models differing only in deformation axis / 5th decimal, built in sequence) x 2-4 rates; all errors of weight <= floor((d-1)/2) on the listed lattices (matching up to 5x5, union-find toric L>=3); all single-qubit errors for sweep-match on 3x3x3 (thorough: up to %d)' % (len(lattices), 3 if tier == 'quick' else 5),
-                evaluations=ev, distinct_nontrivial=len(nt), rule='real decoders; optimum by exhaustive enumeration of the solution coset; correctable sets exhaustively', samples=samples[:5], violations=out)
+                evaluations=ev, distinct_nontrivial=len(nt), truncated_by_time_budget=truncated, rule='real decoders; optimum by exhaustive enumeration of the solution coset; correctable sets exhaustively', samples=samples[:5], violations=out)
